@@ -16,7 +16,7 @@
    Outside the theorems: that the Go evaluator behaves like Eval.v and the parser builds these trees
    (correspondence check: error type, path text, expected and found compared exactly with the model on
    every failing generated pair; the driver also runs the specification next to the model). *)
-From JP Require Import Eval WF Spec ErrSpec EvalInv1 EvalInv3 ErrFacts ErrSelect ErrReal ErrTop.
+From JP Require Import Peg Grammar Text Tree Actions Eval WF Spec ErrSpec EvalInv1 EvalInv3 ErrFacts ErrSelect ErrReal ErrTop StackRules EndToEnd.
 Open Scope string_scope.
 Open Scope list_scope.
 
@@ -52,6 +52,26 @@ Theorem C15_error_is_real_and_deepest : forall ffun afun regex_match,
    forall x, In x (events ffun afun regex_match t doc (Some [], doc)) -> depth_len x = depth_len e -> is_type_err x = true).
 Proof. exact eval_run_error_real. Qed.
 Print Assumptions C15_error_is_real_and_deepest.
+
+(* both hypotheses on the tree hold for every tree Parse returns (the stack-effect checker's item types carry
+   them: C02_parsed_trees_well_formed, parse_builds_ctext_ok), so for parsed trees the statement is unconditional *)
+Theorem C15_parsed_trees_ctext_ok : forall cfg parse_float regex_ok input t,
+  parse_with cfg parse_float regex_ok jsonpath_grammar input = ParseOk t -> ctext_ok t = true.
+Proof. exact parse_builds_ctext_ok. Qed.
+Print Assumptions C15_parsed_trees_ctext_ok.
+
+Theorem C15_end_to_end : forall cfg parse_float regex_ok ffun afun regex_match,
+  (forall f v w, small v -> ffun f v = Some w -> small w) ->
+  (forall f l w, Forall small l -> afun f l = Some w -> small w) ->
+  forall input t doc st e, parse_with cfg parse_float regex_ok jsonpath_grammar input = ParseOk t -> small doc -> ok st ->
+  fst (eval_run ffun afun regex_match t doc st) = OErr e ->
+  In e (events ffun afun regex_match t doc (Some [], doc)) /\
+  In (err_basic e) (basics t) /\
+  (forall x, In x (events ffun afun regex_match t doc (Some [], doc)) -> depth_len e <= depth_len x)%nat /\
+  (is_type_err e = true ->
+   forall x, In x (events ffun afun regex_match t doc (Some [], doc)) -> depth_len x = depth_len e -> is_type_err x = true).
+Proof. exact retrieve_error_end_to_end. Qed.
+Print Assumptions C15_end_to_end.
 
 (* the ranking among the candidates of one multi-valued step *)
 Theorem C15_select_spec : forall es, (forall x, In x es -> (1 <= depth_len x)%nat) ->
